@@ -259,9 +259,6 @@ func runCase(phase string, i int) worker.Result {
 		res.Count("repo_phase_strings", st.evals)
 		res.Key = fmt.Sprintf("%s|%d|%s|%s", shape(base.Registry, 12), strings.Count(base.Repository, "/"), shape(tag, 8), dg[:6])
 		res.NT = st.repoJudged > 0 && st.repoAccepted > 0
-		if i%400 == 0 {
-			res.Sample = map[string]any{"phase": "repo", "base": baseStr, "inputs": inputs[:10]}
-		}
 		return res
 	}
 
